@@ -31,7 +31,7 @@ from anyio.lowlevel import checkpoint
 
 CV = contextvars.ContextVar("verif_cv", default=None)
 RELEASE_LAT = 4
-STEPS = ["gate", "gate", "nap", "nap", "check", "cb_lock", "cb_sleep", "cb_fail", "cb_sync", "raise"]
+STEPS = ["gate", "gate", "nap", "nap", "check", "cb_lock", "cb_sleep", "cb_fail", "cb_sync", "raise", "raise_sai", "raise_base"]
 
 
 class FnErr(Exception):
@@ -39,6 +39,10 @@ class FnErr(Exception):
 
 
 class CbErr(Exception):
+    pass
+
+
+class FnBaseErr(BaseException):
     pass
 
 
@@ -51,8 +55,9 @@ def gen_case(seed, tier, prop="C14"):
         calls = []
         for _ in range(rng.choice([1, 1, 2])):
             plan = [rng.choice(STEPS) for _ in range(rng.randint(0, 5 if big else 4))]
-            if "raise" in plan:
-                plan = plan[:plan.index("raise") + 1]
+            for r in ("raise", "raise_sai", "raise_base"):
+                if r in plan:
+                    plan = plan[:plan.index(r) + 1]
             calls.append({"pre": rng.choice([0, 0, 0.125, 0.25]), "abandon": rng.random() < 0.35,
                           "shape": rng.choice(["plain", "plain", "shield_inner", "shield_self"]),
                           "cancel_after": rng.choice([None, None, 0, 0.0625, 0.125, 0.25, 0.5]),
@@ -147,8 +152,8 @@ class ToThreadRun:
                         self.v("callback_value", f"call {cid}: from_thread.run_sync returned {r!r}")
                     else:
                         self.bump("callback_sync_ok")
-                elif step == "raise":
-                    exc = FnErr(cid)
+                elif step in ("raise", "raise_sai", "raise_base"):
+                    exc = FnErr(cid) if step == "raise" else StopAsyncIteration(cid) if step == "raise_sai" else FnBaseErr(cid)
                     st["raised"] = exc
                     raise exc
             val = ("ret", cid)
@@ -242,7 +247,9 @@ class ToThreadRun:
                         r = await to_thread.run_sync(self.fn, st, limiter=self.limiter if self.limiter_explicit else None,
                                                      abandon_on_cancel=spec["abandon"])
                         outcome = ("ok", r)
-                    except FnErr as e:
+                    except (FnErr, StopAsyncIteration, FnBaseErr) as e:
+                        outcome = ("raised", e)
+                    except RuntimeError as e:
                         outcome = ("raised", e)
                     except Cancelled:
                         outcome = ("cancelled", None)
